@@ -238,6 +238,8 @@ def sample_config(rng, family=None, families=None, n_range=(2, 14), d_range=(1, 
             cfg["affinity_src"] = choice(rng, ["euclidean", "manhattan", "cosine"])
         if rng.random() < 0.15:
             cfg["affinity_dtype"] = "int64"
+        if gemini_ref_spec(cfg)[0] != "mmd" and rng.random() < 0.2:
+            cfg["affinity_shift"] = True
     return cfg
 
 
@@ -303,6 +305,9 @@ def make_affinity(config, X):
         S = (S + S.T) / 2
         np.fill_diagonal(S, 0.0)
         A = A + S
+    if config.get("affinity_shift"):
+        # a shifted cost matrix (costs relative to the median cost): negative entries, a transport objective that can be negative
+        A = A - np.median(A)
     if config.get("affinity_dtype") == "int64":
         # an integer-valued matrix in an integer dtype: Hamming / edit / hop counts, co-occurrence counts
         A = np.rint(A * 3.0).astype(np.int64)
